@@ -134,7 +134,25 @@ func c11Enumerate(tier string, emit func(*eng.Case)) {
 			}
 		}
 	})
-	// (2) histories: every sequence of <= 3 calls from the menu
+	// (1c) warm vs fresh: every corpus document distilled in this long-lived worker (after whatever
+	// came before) must equal the same document distilled in a fresh process
+	seqEnum(alpha, 5, func(seq []int) {
+		if len(seq) != 5 {
+			return
+		}
+		for _, k := range ks {
+			emit(&eng.Case{Kind: "warm", HTML: c11PagerDoc(seq, k), URL: c11Patterns[seq[0]](k), Algo: 1, P: map[string]string{"doc": fmt.Sprintf("warm-vs-fresh pager patterns %v k=%d", seq, k)}})
+		}
+	})
+	ora.EnumDocs(ora.StdSkeletons(atoms), al, maxE, func(d *ora.DocModel, edits int) {
+		for algo := 0; algo < 2; algo++ {
+			c := caseFromModel("warm", d, atoms, c13URL)
+			c.Algo = algo
+			c.P["doc"] = "warm-vs-fresh " + c.P["doc"]
+			emit(c)
+		}
+	})
+	// (1c) warm vs fresh: every document of both corpora is distilled in the long-lived worker process (after thousands of other calls) and in a fresh process, and the two results must be equal. (2) histories: every sequence of <= 3 calls from the menu
 	n := len(c11Menu())
 	hist := make([]int, n)
 	for i := range hist {
@@ -510,6 +528,30 @@ func c11Check(c *eng.Case) *eng.Outcome {
 		}
 		o.Nontrivial = len(idx) >= 2
 		o.Class = fmt.Sprintf("history len=%d", len(idx))
+	case "warm":
+		warm := c11OneKey(c)
+		o.Execs = 2
+		f, err := os.CreateTemp("", "c11one-*.json")
+		if err != nil {
+			o.Skipped = "tempfile"
+			return o
+		}
+		defer os.Remove(f.Name())
+		b, _ := json.Marshal(c)
+		f.Write(b)
+		f.Close()
+		cmd := exec.Command(os.Args[0], "-sub", "one", "-arg", f.Name())
+		var so bytes.Buffer
+		cmd.Stdout = &so
+		if err := cmd.Run(); err != nil {
+			o.Skipped = "fresh process failed: " + err.Error()
+			return o
+		}
+		if fresh := so.String(); fresh != warm {
+			o.V("warm-vs-fresh:"+diffField(fresh, warm), "the result in a long-lived process (after other documents) differs from the result in a fresh process: %s; %s", firstDiff(fresh, warm), c.Get("doc"))
+		}
+		o.Nontrivial = true
+		o.Class = "warm-vs-fresh"
 	case "inplace":
 		var from, to int
 		fmt.Sscan(c.Get("from"), &from)
@@ -588,13 +630,40 @@ func c11Check(c *eng.Case) *eng.Outcome {
 	return o
 }
 
+// OneMain is the body of the `-sub one` mode: it distils the case stored in the given JSON file in
+// this fresh process and prints the canonical result.
+func OneMain(path string) int {
+	b, err := os.ReadFile(path)
+	if err != nil {
+		return 2
+	}
+	var c eng.Case
+	if json.Unmarshal(b, &c) != nil {
+		return 2
+	}
+	os.Stdout.WriteString(c11OneKey(&c))
+	return 0
+}
+
+func c11OneKey(c *eng.Case) string {
+	_, res, err, pi := ora.Run(c)
+	switch {
+	case pi != nil:
+		return "PANIC " + pi.Sig()
+	case err != nil:
+		return "ERR " + err.Error()
+	}
+	return fullKey(res)
+}
+
 func init() {
+	eng.SubModes["one"] = OneMain
 	eng.SubModes["history"] = HistoryMain
 	eng.Register(&eng.Prop{
 		ID:        "C11",
 		DesignRef: "§5 C11",
 		Rule: "(1) map orders: for each corpus document - pagers of 6 pages whose 5 links each follow one of 3 (quick) / 4 (thorough) URL patterns, current page 2|4 / 1..6, both algorithms; S1,S2 with <= 1 / <= 2 insertions over 21 atoms (embeds with several query parameters, multi-label blocks, schema.org item, pagers) x flags {none, all} x both algorithms - a DFS explores every execution with <= 1 non-default iteration order (<= 2 on the pager corpus in thorough) at the range-over-map sites (all permutations for <= 4 keys; descending, rotations, adjacent transpositions above); the canonical result (all fields but TimingInfo) must be identical. " +
-			"(2) histories: every sequence of <= 3 calls from a menu of 9 (document, options, entry point; including a page that starts with media, nil options and ApplyForURL(nil) through a stub transport), and every ordered pair from a 21-entry menu that distils two documents full of relative references (path-style and query-style pagers) under page URLs sharing hosts, directories and string prefixes, and every ordered pair (thorough: triple) from an 8-entry menu of pages whose OpenGraph/schema.org/IE metadata take different parser paths, runs in a fresh process; additionally, for every ordered pair of 5 page URLs and both algorithms, one URL object is used, overwritten in place by the caller and used again, and the second result must equal that of a freshly parsed equal URL; each call must equal the same call alone in a fresh process; package-variable writes after init are reported. (3) entry points: ApplyForReader == ApplyForFile == Apply(dom.Parse) on all byte-token strings of <= 2 / <= 3 tokens and the corpus. " +
+			"(1c) warm vs fresh: every document of both corpora is distilled in the long-lived worker process (after thousands of other calls) and in a fresh process, and the two results must be equal. (2) histories: every sequence of <= 3 calls from a menu of 9 (document, options, entry point; including a page that starts with media, nil options and ApplyForURL(nil) through a stub transport), and every ordered pair from a 21-entry menu that distils two documents full of relative references (path-style and query-style pagers) under page URLs sharing hosts, directories and string prefixes, and every ordered pair (thorough: triple) from an 8-entry menu of pages whose OpenGraph/schema.org/IE metadata take different parser paths, runs in a fresh process; additionally, for every ordered pair of 5 page URLs and both algorithms, one URL object is used, overwritten in place by the caller and used again, and the second result must equal that of a freshly parsed equal URL; each call must equal the same call alone in a fresh process; package-variable writes after init are reported. (3) entry points: ApplyForReader == ApplyForFile == Apply(dom.Parse) on all byte-token strings of <= 2 / <= 3 tokens and the corpus. " +
 			"Non-trivial = an execution met a ranged map with >= 2 keys and a non-default order was explored; histories of >= 2 calls; inputs that parse.",
 		Enumerate:                 c11Enumerate,
 		Check:                     c11Check,
